@@ -14,7 +14,7 @@ TRUSTED = [
     "still hand-modelled: the `_takes_ascii` decorator and isoparser.__init__ (14 of 164 statements); C07.input_kinds_equivalent states the str/bytes/stream equivalence over the hand model of `_takes_ascii`, and the oracle exercises str, bytes and StringIO inputs on every run",
 ]
 ASSUMPTIONS = [
-    "the separator between date and time is a single non-digit ASCII byte (digit separators are ambiguous with basic forms and outside the property)",
+    "separator domain: any single byte, except that a digit is not used after a basic ordinal date YYYYDDD (the only ambiguous case: '2014059112' reads as 2014-05-91); for TEXT input the separator must be ASCII, because _takes_ascii rejects non-ASCII text with ValueError before parsing (C20.non_ascii_rejected) while bytes input accepts any byte: str/bytes/stream equivalence is therefore claimed and checked for ASCII text only",
     "incomplete dates (YYYY, YYYY-MM, YYYY-Www) stand alone: the parser documents that they cannot be followed by a time",
     "StringIO input is equivalent to str input through `.read()`; bytes input skips the ASCII gate",
 ]
@@ -64,6 +64,8 @@ def build_cases(ctx):
             frac = (usd + [rng.randint(0, 9) for _ in range(3)])[:k] if tf in ic.HAS_F else []
             neg, oh, om = ic.gen_offset(rng)
             sepb = ic.SEPARATORS[(j + df) % len(ic.SEPARATORS)] if j % 3 else 84
+            if df != 9 and j % 11 == 5:
+                sepb = rng.choice([48, 49, 53, 57])    # a DIGIT as separator: unambiguous except after YYYYDDD
             # what the form shows of the time
             shown_zero = (tf != 0 and dt.hour == 0 and (tf not in ic.HAS_M or dt.minute == 0)
                           and (tf not in ic.HAS_S or dt.second == 0)
